@@ -14,6 +14,8 @@ import (
 	"github.com/ava-labs/avalanchego/utils/wrappers"
 	"github.com/stretchr/testify/require"
 
+	avacodec "github.com/ava-labs/avalanchego/codec"
+
 	"github.com/ava-labs/hypersdk/chain"
 	"github.com/ava-labs/hypersdk/codec"
 	"github.com/ava-labs/hypersdk/consts"
@@ -102,11 +104,13 @@ func UnmarshalTestAction(b []byte) (chain.Action, error) {
 		return nil, fmt.Errorf("unexpected test action typeID: %d != %d", b[0], TestActionID)
 	}
 
-	if err := codec.LinearCodec.UnmarshalFrom(
-		&wrappers.Packer{Bytes: b[1:]},
-		t,
-	); err != nil {
+	p := &wrappers.Packer{Bytes: b[1:]}
+	if err := codec.LinearCodec.UnmarshalFrom(p, t); err != nil {
 		return nil, err
+	}
+	// reject trailing bytes: an accepted encoding must re-encode to itself
+	if p.Offset != len(p.Bytes) {
+		return nil, avacodec.ErrExtraSpace
 	}
 	return t, nil
 }
